@@ -118,8 +118,8 @@ def configs(tier, seed=0):
     for (n1, k1), (n2, k2) in itertools.combinations(fams, 2):
       if kind_of(n1) == kind_of(n2) and kind_of(n1) in ("mono",):
         continue
-      if quick and n >= 9 and not ((hash_s(n1 + n2) % 4) == 0):
-        continue  # quick tier: a fixed quarter of the pairs on the 9 vertex lattice
+      if quick and n >= 8 and not (kind_of(n1) == kind_of(n2) or (hash_s(n1 + n2) % 4) == 0):
+        continue  # quick tier on the 8-9 vertex lattices: every same-family pair + a fixed quarter of the mixed pairs
       if quick and n >= 9 and ("junimodal-2" in n1 + n2) and not (n1.startswith("mono") or n2.startswith("mono")):
         continue  # (tracing dozens of hyperplane sets is slow; thorough tier covers them)
       kw = merge(k1, k2)
@@ -403,8 +403,6 @@ def work(ctx, item):
   n = rl.nvert(sizes)
   if "junimodal-2" in cfg["name"] and n >= 9 and ctx.quick:
     cfg["Ns"] = (1, 10, 100, 200)  # dozens of hyperplane sets per iteration: shorter horizon in quick
-  elif n >= 8 and ctx.quick and "+" in cfg["name"]:
-    cfg["Ns"] = (1, 10, 100, 300)  # all pairs on [2,2,2] in quick, with a shorter horizon
   W = alpha.words(alpha.A3, n)
   res = judge(cfg, W, ctx)
   # the units == 1 code path (eager): same kernels alone must give the packed result
